@@ -35,9 +35,18 @@ Theorem c17_filed_where : forall cfg d acc m r st f,
 Proof. exact filed_where. Qed.
 Print Assumptions c17_filed_where.
 
-(** the 250/550 replies of DATA tell what DeliverMessage did (the results map
-    keyed by address does not mix up duplicates) — part of c17_policy_exact;
-    here: the path of RCPT TO:<addr> is recovered for every addr *)
+(** F. the 250/550 replies of DATA tell what each DeliverMessage call did, also
+    when an address is given twice (results map keyed by address) *)
+Theorem c17_replies_truthful : forall cfg d acc m replies,
+  do_reply (handle_data cfg d acc m) = DR_per replies ->
+  zip_outcomes replies (do_deliveries (handle_data cfg d acc m))
+    = map (fun kv => to_mo (snd kv)) (do_deliveries (handle_data cfg d acc m)) /\
+  map fst (do_deliveries (handle_data cfg d acc m)) = acc.
+Proof. exact replies_truthful. Qed.
+Print Assumptions c17_replies_truthful.
+
+(** F. the path of RCPT TO:<addr> (TO: or to:, optional blanks, no parameters)
+    is recovered for every byte string addr *)
 Theorem c17_rcpt_path : forall pre sp addr,
   pre = S_ "TO:" \/ pre = S_ "to:" -> forallb is_space sp = true ->
   parse_rcpt_to (pre ++ sp ++ "<"%char :: addr ++ [">"%char]) = Some addr.
